@@ -32,6 +32,7 @@ type vPid struct{ addr, id string }
 var vPidPool = []vPid{
 	{"n1:4000", "a"}, {"n1:4000", "b"}, {"n2:4000", "a"}, {"ab", "c"}, {"a", "bc"}, {"", "abc"}, {"abc", ""}, {"n1:4000", "a/b"},
 	{"n/a", "w/1"}, {"n", "a/w/1"}, // differ only in where the "/" between address and id falls
+	{"n1:4000", "\xff\xfe-bin"}, // an id that is not valid UTF-8 (raw hash bytes): ids are arbitrary Go strings
 }
 
 func vPayload(k int) any {
@@ -421,8 +422,8 @@ func genWireBatch(r *vgen.Rng) []vItem {
 	for i := range b {
 		it := vItem{s: r.Intn(npid), t: r.Intn(npid), p: r.Intn(vNumPayloads)}
 		if r.Chance(1, 3) { // address/id split collisions
-			it.s = 3 + r.Intn(7)
-			it.t = 3 + r.Intn(7)
+			it.s = 3 + r.Intn(8)
+			it.t = 3 + r.Intn(8)
 		}
 		if nilRate > 0 && r.Intn(4) < nilRate {
 			it.s = -1
